@@ -534,6 +534,63 @@ def closure_braces(tx, hdr_end):
     return [(ct[k].start, '{ '), (ct[j - 1].end, ' }')]
 
 
+def auto_closure_patterns(tx, ct, lo, hi, add_insert):
+    """R15a (automatic): a closure whose parameter is a pattern (`|(a, b)|`, `|&x|`, `|Foo { f, .. }|`) is rewritten to
+    `|__cpN| { let PAT = __cpN; BODY }` -- the Reference's meaning of closure parameter patterns (irrefutable bindings).
+    Verus accepts only plain variables as closure parameters.  Closures already rewritten by `@closure` are left alone."""
+    starts = ('(', ',', '=', 'move')
+    k = lo
+    n = 0
+    while k < hi:
+        t = ct[k]
+        if t.kind == 'punct' and t.text == '|' and ct[k - 1].text in starts and ct[k + 1].text != '|':
+            j = k + 1; depth = 0
+            while j < hi and not (ct[j].text == '|' and depth == 0):
+                if ct[j].text in rl.OPEN: depth += 1
+                elif ct[j].text in rl.CLOSE: depth -= 1
+                if depth < 0: break
+                j += 1
+            if j >= hi or depth != 0:
+                k += 1; continue
+            if any(not (e_[1] <= ct[k].start or e_[0] >= ct[j].end) for e_ in tx.edits):
+                k = j + 1; continue        # header already edited (annotated closure)
+            # split params at depth-0 commas
+            params = []; a = k + 1; depth = 0
+            for q in range(k + 1, j + 1):
+                if q == j or (ct[q].text == ',' and depth == 0):
+                    if q > a: params.append((a, q))
+                    a = q + 1
+                elif ct[q].text in rl.OPEN or ct[q].text == '<': depth += 1
+                elif ct[q].text in rl.CLOSE or (ct[q].text == '>' and ct[q - 1].text != '-'): depth -= 1
+            lets = []
+            for (a, b) in params:
+                # pattern = tokens up to a depth-0 single ':' (type ascription)
+                e = b; depth = 0
+                for q in range(a, b):
+                    if ct[q].text in rl.OPEN: depth += 1
+                    elif ct[q].text in rl.CLOSE: depth -= 1
+                    elif ct[q].text == ':' and depth == 0 and ct[q + 1].text != ':' and ct[q - 1].text != ':':
+                        e = q; break
+                toks = [ct[q].text for q in range(a, e)]
+                simple = (len(toks) == 1 and ct[a].kind == 'id') or (len(toks) == 2 and toks[0] == 'mut' and ct[a + 1].kind == 'id')
+                if simple:
+                    continue
+                name = f'__cp{n}'; n += 1
+                pat = tx.src[ct[a].start:ct[e - 1].end]
+                tx.edit(ct[a].start, ct[e - 1].end, name, 'R15a', f'closure parameter pattern `{pat}` moved into the body')
+                lets.append(f'let {pat} = {name};')
+            if lets:
+                cb = closure_braces(tx, ct[j].end)
+                text = ' '.join(lets)
+                if cb:
+                    add_insert(cb[0][0], '{ ' + text + ' '); add_insert(cb[1][0], cb[1][1])
+                else:
+                    kb = next(i_ for i_, t_ in enumerate(ct) if t_.start >= ct[j].end)
+                    add_insert(ct[kb].end, ' ' + text + ' ')
+            k = j + 1; continue
+        k += 1
+
+
 def apply_fx(tx, ct, lo, hi, fxname, fxcalls, inserts, mk, bare=False):
     """R13 (effect state made explicit): every call `.NAME(ARGS)` / `path::NAME(ARGS)` with NAME in fxcalls gets the
     effect-state variable appended as last argument.  Shared mutable state behind `&self` handles (channels) cannot be
@@ -955,6 +1012,9 @@ class Gen:
                 body = src[body_s:body_e]
                 cnt = body.count(a.arg)
                 if cnt == 0 and a.opts.get('optional'):
+                    # the closure is verified as it stands (un-annotated = opaque to its caller); a failure in this fn
+                    # may then be the missing annotation, not the code: degrade it to undecided, keep the rest of the unit
+                    self.degraded.setdefault(region, []).append(f'closure <<{a.arg}>> absent')
                     continue
                 nth = int(a.opts.get('nth', '0'))
                 if (nth == 0 and cnt != 1) or nth > cnt:
@@ -1008,6 +1068,7 @@ class Gen:
                 self.apply_relift(tx, a, region)
             elif a.kind == 'split_or_arm':
                 split_anns.append(a)
+        auto_closure_patterns(tx, ct, fp['bopen'] + 1, fp['bclose'], lambda pos, text: pending_inserts.append((pos, text, 'R15a')))
         if self.inject_false == region:
             # vacuity self-test: `{ BODY }` -> `{ let __vac = { BODY }; proof { assert(false); } __vac }` (works for tail expressions too)
             pending_inserts.append((ct[fp['bopen']].end, ' proof { assert(false); } let __vac = {', 'selftest'))
@@ -1031,6 +1092,39 @@ class Gen:
             tx.edit(ct[cut].start, ct[fp['bclose']].start, '', 'R6',
                     'async prefix: tail starting at the first statement with .await dropped -- NOT VERIFIED')
             body_hi = cut
+        if it.opts.get('unpin'):
+            # R23 (Pin erasure): `[mut] self: Pin<&mut Self>` => `&mut self`, `Pin<&mut T>` => `&mut T`, `Pin::new(E)` => `(E)`.
+            # For `T: Unpin`, `Pin<&mut T>` and `&mut T` are interchangeable (Pin::new / Pin::get_mut are safe identities);
+            # rustc has checked `Unpin` wherever the extracted text calls `Pin::new(..)` or reaches `&mut` through the Pin
+            # (DerefMut for Pin<P> requires P::Target: Unpin).  Verus does not know the `Unpin` bound of Pin's DerefMut.
+            k = fp['popen'] + 1
+            k0 = k
+            if ct[k].kind == 'id' and ct[k].text == 'mut': k += 1
+            if (ct[k].text == 'self' and ct[k + 1].text == ':' and ct[k + 2].text == 'Pin' and ct[k + 3].text == '<' and ct[k + 4].text == '&'
+                    and ct[k + 5].text == 'mut' and ct[k + 6].text == 'Self' and ct[k + 7].text == '>'):
+                tx.edit(ct[k0].start, ct[k + 7].end, '&mut self', 'R23', 'Pin erased (Self: Unpin): self: Pin<&mut Self> => &mut self')
+                k_from = k + 8
+            else:
+                k_from = fp['popen']
+            k = k_from
+            while k < fp['bclose']:
+                if ct[k].kind == 'id' and ct[k].text == 'Pin' and ct[k + 1].text == '<' and ct[k + 2].text == '&' and ct[k + 3].text == 'mut':
+                    # Pin<&mut T>: find the matching '>'
+                    depth = 0; j = k + 1
+                    while True:
+                        if ct[j].text == '<': depth += 1
+                        elif ct[j].text == '>' and ct[j - 1].text != '-':
+                            depth -= 1
+                            if depth == 0: break
+                        j += 1
+                    tx.edit(ct[k].start, ct[k + 1].end, '', 'R23', 'Pin erased (T: Unpin): Pin<&mut T> => &mut T')
+                    tx.edits.append((ct[j].start, ct[j].end, ''))
+                    k = j + 1; continue
+                if (ct[k].kind == 'id' and ct[k].text == 'Pin' and ct[k + 1].text == ':' and ct[k + 2].text == ':' and ct[k + 3].text == 'new'
+                        and ct[k + 4].text == '('):
+                    tx.edit(ct[k].start, ct[k + 3].end, '', 'R23', 'Pin erased (T: Unpin): Pin::new(E) => (E)')
+                    k += 4; continue
+                k += 1
         if it.opts.get('mutself'):
             # R13b: interior mutability made explicit: `&self` receiver becomes `&mut self`
             for k in range(fp['popen'], fp['pclose']):
@@ -1399,6 +1493,7 @@ class Gen:
                 b = synthetic[bs:be]
                 nth = int(a.opts.get('nth', '0'))
                 if b.count(a.arg) == 0 and a.opts.get('optional'):
+                    self.degraded.setdefault(region, []).append(f'closure <<{a.arg}>> absent')
                     continue
                 if (nth == 0 and b.count(a.arg) != 1) or nth > b.count(a.arg):
                     raise SpecError(f'LOST-ANCHOR: {region}: closure header <<{a.arg}>> occurs {b.count(a.arg)} times')
@@ -1416,6 +1511,7 @@ class Gen:
         if it.opts.get('fx'):
             apply_fx(sub, sct, fp['bopen'], fp['bclose'], it.opts['fx'].split(':', 1)[0], it.opts.get('fxcalls', '').split(','), inserts,
                      lambda pos, text: (pos, text))
+        auto_closure_patterns(sub, sct, fp['bopen'] + 1, fp['bclose'], lambda pos, text: inserts.append((pos, text)))
         if self.inject_false == region:
             inserts.append((sct[fp['bopen']].end, ' proof { assert(false); } let __vac = {'))
             inserts.append((sct[fp['bclose']].start, '\n    }; proof { assert(false); } __vac // vacuity self-test\n'))
@@ -1506,6 +1602,13 @@ def generate(unit_name, inject_false=None):
     g = Gen(u)
     g.inject_false = inject_false
     text = g.build()
+    if inject_false:
+        # Verus wants `hide(..)` headers at the very beginning of a fn body: move them in front of the injected wrapper
+        # (same line count: the moved text contains no newline of its own)
+        mark = ' proof { assert(false); } let __vac = {'
+        def fix(m):
+            return m.group(2) + mark + m.group(1)
+        text = re.sub(re.escape(mark) + r'((?:\s|//[^\n]*\n)*)((?:hide\([^)]*\);[ \t]*)+)', lambda m: ' ' + m.group(2) + mark + m.group(1), text)
     return u, g, text
 
 
